@@ -5,7 +5,8 @@ P=$1; shift
 cd /repo || exit 2
 [ -z "$(git status --porcelain --untracked-files=no)" ] || { echo "/repo has local modifications; refusing"; exit 2; }
 git apply "$P" || { echo "patch does not apply to /repo"; exit 2; }
-trap 'git -C /repo checkout -q -- .' EXIT
+before=$(ls /verif/work 2>/dev/null)
+trap 'git -C /repo checkout -q -- .; for d in $(ls /verif/work 2>/dev/null); do echo "$before" | grep -qx "$d" || rm -rf "/verif/work/$d"; done' EXIT   # /repo restored; scratch of the (non-clean) runs removed
 cd /verif
 for c in "$@"; do
   cp evidence/$c.json /tmp/evidence_$c.json.bak 2>/dev/null     # evidence files must describe the unchanged tree
